@@ -4,12 +4,20 @@
 // option x history x path); options = {absent, uint8 0, uint8 CurrentRead,
 // uint8 CurrentWrite, uint8 Read|Write, uint32 Read (wrong type), null Variant,
 // DataValue without a Variant}; histories = every sequence of length 0..3 over
-// {read value, write v1, write v2}; paths = direct (NameSpace.Attribute /
+// {read value, write v1, write v2, write AccessLevel := Read|Write, write
+// UserAccessLevel := Read|Write}; paths = direct (NameSpace.Attribute /
 // SetAttribute, panic recovered) and wire (real client Read / Write over
 // loopback TCP). Every history gets its own node, so each starts from the same
 // initial value.
 //
-// Oracle: a register guarded by the two masks.
+// Oracle: a register guarded by the two masks. The masks of the reference
+// change only through an access level attribute write that the reference
+// permits at that moment (no well-typed mask lacks CurrentWrite - the rule the
+// server implements for every attribute write); then they become what the
+// node holds afterwards (peeked server-side; the status of the attribute write
+// itself is not judged). An attribute write the reference does not permit
+// leaves the reference masks as they are, so a server that lets it take effect
+// is caught by the value reads / writes that follow.
 //   - a well-typed (uint8) attribute lacking CurrentRead: a read must not
 //     deliver a value;
 //   - a well-typed attribute lacking CurrentWrite: a write must be refused and
@@ -38,7 +46,7 @@ import (
 type c31Case struct {
 	AL   int    `json:"access_level"`
 	UAL  int    `json:"user_access_level"`
-	Hist string `json:"history"` // letters R, A (write v1), B (write v2)
+	Hist string `json:"history"` // letters R, A (write v1), B (write v2), L (write AccessLevel := 3), U (write UserAccessLevel := 3)
 	Path string `json:"path"`
 }
 
@@ -72,44 +80,61 @@ func c31Attr(opt int) (*ua.DataValue, bool) {
 	panic("bad option")
 }
 
-// bits returns (wellTyped, mask) of an option.
-func c31Bits(opt int) (bool, uint8) {
-	switch opt {
-	case 1:
-		return true, 0
-	case 2:
-		return true, 1
-	case 3:
-		return true, 2
-	case 4:
-		return true, 3
-	}
-	return false, 0
+// c31Mask is what the reference knows about one of the two attributes.
+type c31Mask struct {
+	present   bool
+	wellTyped bool // a uint8
+	mask      uint8
 }
 
-func c31Forbidden(c c31Case, flag uint8) bool {
-	for _, o := range []int{c.AL, c.UAL} {
-		if wt, m := c31Bits(o); wt && m&flag == 0 {
+func c31MaskOf(dv *ua.DataValue, present bool) c31Mask {
+	if !present {
+		return c31Mask{}
+	}
+	m := c31Mask{present: true}
+	if dv != nil && dv.Value != nil {
+		if v, ok := dv.Value.Value().(uint8); ok {
+			m.wellTyped, m.mask = true, v
+		}
+	}
+	return m
+}
+
+// c31Ref is the reference's view of the node's two masks.
+type c31Ref struct{ al, ual c31Mask }
+
+func c31InitialRef(c c31Case) c31Ref {
+	a, aok := c31Attr(c.AL)
+	u, uok := c31Attr(c.UAL)
+	return c31Ref{al: c31MaskOf(a, aok), ual: c31MaskOf(u, uok)}
+}
+
+// forbidden: some well-typed mask lacks the flag.
+func (r c31Ref) forbidden(flag uint8) bool {
+	for _, m := range []c31Mask{r.al, r.ual} {
+		if m.wellTyped && m.mask&flag == 0 {
 			return true
 		}
 	}
 	return false
 }
 
-// c31Constrained: true when every present attribute is well-typed, i.e. the
-// reference fully determines whether the operation is granted.
-func c31Determined(c c31Case) bool {
-	for _, o := range []int{c.AL, c.UAL} {
-		if o >= 5 {
+// determined: every present attribute is well-typed, i.e. the reference fully
+// determines whether the operation is granted.
+func (r c31Ref) determined() bool {
+	for _, m := range []c31Mask{r.al, r.ual} {
+		if m.present && !m.wellTyped {
 			return false
 		}
 	}
 	return true
 }
 
+const c31Ops = "RABLU"
+
 func c31Histories() []string {
 	out := []string{""}
-	ops := "RAB"
+	ops := c31Ops
 	prev := []string{""}
 	maxLen := 3
 	if evid.Thorough() {
@@ -202,6 +227,10 @@ func dvResult(dv *ua.DataValue) opResult {
 }
 
 func (e *c31Exec) write(c c31Case, nid *ua.NodeID, v int32) (res opResult) {
+	return e.writeAttr(c, nid, ua.AttributeIDValue, v)
+}
+
+func (e *c31Exec) writeAttr(c c31Case, nid *ua.NodeID, attr ua.AttributeID, v any) (res opResult) {
 	dv := &ua.DataValue{EncodingMask: ua.DataValueValue, Value: ua.MustVariant(v)}
 	if c.Path == "direct" {
 		defer func() {
@@ -209,11 +238,11 @@ func (e *c31Exec) write(c c31Case, nid *ua.NodeID, v int32) (res opResult) {
 				res.panicked = panicSite()
 			}
 		}()
-		return opResult{status: e.ns.SetAttribute(nid, ua.AttributeIDValue, dv)}
+		return opResult{status: e.ns.SetAttribute(nid, attr, dv)}
 	}
 	ctx, cancel := context.WithTimeout(context.Background(), watchdog)
 	defer cancel()
-	resp, err := e.cl.Write(ctx, &ua.WriteRequest{NodesToWrite: []*ua.WriteValue{{NodeID: nid, AttributeID: ua.AttributeIDValue, Value: dv}}})
+	resp, err := e.cl.Write(ctx, &ua.WriteRequest{NodesToWrite: []*ua.WriteValue{{NodeID: nid, AttributeID: attr, Value: dv}}})
 	if err != nil || len(resp.Results) != 1 {
 		return opResult{failed: fmt.Sprint("write: ", err)}
 	}
@@ -224,14 +253,18 @@ func (e *c31Exec) write(c c31Case, nid *ua.NodeID, v int32) (res opResult) {
 func (e *c31Exec) run(c c31Case, n *server.Node) (viol [][2]string, steps []c31Step, panicked bool) {
 	nid := n.ID()
 	reg := any(c31V0)
-	readForbidden := c31Forbidden(c, 1)
-	writeForbidden := c31Forbidden(c, 2)
-	determined := c31Determined(c)
+	ref := c31InitialRef(c)
+	// tampered: the history contains an access level write that the reference did not permit; what follows is
+	// a different way of getting at the value than a plain read / write, so it gets its own signatures
+	tampered := ""
 	add := func(sig, detail string) {
-		viol = append(viol, [2]string{sig, fmt.Sprintf("%s; case AL=%s UAL=%s history=%q path=%s steps=%+v", detail, c31OptNames[c.AL], c31OptNames[c.UAL], c.Hist, c.Path, steps)})
+		viol = append(viol, [2]string{sig + tampered, fmt.Sprintf("%s; case AL=%s UAL=%s history=%q path=%s steps=%+v", detail, c31OptNames[c.AL], c31OptNames[c.UAL], c.Hist, c.Path, steps)})
 	}
 	for i, op := range c.Hist {
 		evid.Publish(fmt.Sprintf("%+v step %d", c, i))
+		readForbidden := ref.forbidden(1)
+		writeForbidden := ref.forbidden(2)
+		determined := ref.determined()
 		var res opResult
 		switch op {
 		case 'R':
@@ -240,6 +273,10 @@ func (e *c31Exec) run(c c31Case, n *server.Node) (viol [][2]string, steps []c31S
 			res = e.write(c, nid, c31V1)
 		case 'B':
 			res = e.write(c, nid, c31V2)
+		case 'L':
+			res = e.writeAttr(c, nid, ua.AttributeIDAccessLevel, uint8(ua.AccessLevelTypeCurrentRead|ua.AccessLevelTypeCurrentWrite))
+		case 'U':
+			res = e.writeAttr(c, nid, ua.AttributeIDUserAccessLevel, uint8(ua.AccessLevelTypeCurrentRead|ua.AccessLevelTypeCurrentWrite))
 		}
 		st := c31Step{Op: string(op), Status: res.status.Error(), Panicked: res.panicked}
 		if res.hasValue {
@@ -263,6 +300,17 @@ func (e *c31Exec) run(c c31Case, n *server.Node) (viol [][2]string, steps []c31S
 			case determined && !readForbidden && !(res.hasValue && res.status == ua.StatusOK):
 				add("access/read/refused-although-CurrentRead-granted", fmt.Sprintf("read answered %v", res.status))
 			}
+		case 'L', 'U':
+			// Not judged itself. The reference masks follow the node only if the reference permits the write
+			// (or cannot decide because an attribute is mistyped).
+			if writeForbidden {
+				tampered = "/after-access-level-write-without-CurrentWrite"
+				break
+			}
+			at := n.VerifAttrs()
+			dvA, okA := at[ua.AttributeIDAccessLevel]
+			dvU, okU := at[ua.AttributeIDUserAccessLevel]
+			ref = c31Ref{al: c31MaskOf(dvA, okA), ual: c31MaskOf(dvU, okU)}
 		default:
 			v := any(c31V1)
 			if op == 'B' {
@@ -286,7 +334,7 @@ func (e *c31Exec) run(c c31Case, n *server.Node) (viol [][2]string, steps []c31S
 	}
 	if stored != reg {
 		kind := "stored-value-differs-from-register"
-		if writeForbidden {
+		if ref.forbidden(2) {
 			kind = "value-changed-although-CurrentWrite-missing"
 		}
 		add("access/write/"+kind, fmt.Sprintf("node holds %v, register %v", stored, reg))
@@ -416,8 +464,8 @@ func c31() {
 		r.Violate("access/wire/server-died/"+fn, fmt.Sprintf("worker died while running %s\n%s\n%s", d.LastCase, head, lastLines(d.Stderr, 30)), d.LastCase)
 		r.Capped(fmt.Sprintf("worker %d died; the rest of its shard was not run", d.Shard))
 	}
-	r.Rule(fmt.Sprintf("8 AccessLevel options x 8 UserAccessLevel options (absent, uint8 0/Read/Write/Read|Write, uint32 Read, null Variant, DataValue without Variant) x %d histories (all sequences of length 0..3 (thorough: 0..5) over read, write v1, write v2) x 2 paths (direct namespace call, real client over TCP), each on its own node; non-trivial = non-empty history on a node with at least one of the two attributes present; distinct = (AccessLevel option, UserAccessLevel option, history)", len(hists)))
-	r.Assume("absent attribute = no requirement; mistyped or null attribute = refusal or grant both accepted (only register consistency is judged); a panic inside the access check is counted as not judged here (crash property C29)")
+	r.Rule(fmt.Sprintf("8 AccessLevel options x 8 UserAccessLevel options (absent, uint8 0/Read/Write/Read|Write, uint32 Read, null Variant, DataValue without Variant) x %d histories (all sequences of length 0..3 (thorough: 0..5) over read value, write value v1, write value v2, write AccessLevel := Read|Write, write UserAccessLevel := Read|Write) x 2 paths (direct namespace call, real client over TCP), each on its own node; non-trivial = non-empty history on a node with at least one of the two attributes present; distinct = (AccessLevel option, UserAccessLevel option, history)", len(hists)))
+	r.Assume("the reference masks change only through an AccessLevel / UserAccessLevel write made while no well-typed mask lacks CurrentWrite (then they become what the node holds afterwards); the status of these attribute writes is not judged", "absent attribute = no requirement; mistyped or null attribute = refusal or grant both accepted (only register consistency is judged); a panic inside the access check is counted as not judged here (crash property C29)")
 	r.Set("histories", len(hists))
 	r.Finish()
 }
